@@ -3,6 +3,7 @@ package main
 // Loading of /repo, contract lookup, per-function verification and lemma checking.
 
 import (
+	"regexp"
 	"fmt"
 	"go/token"
 	"go/types"
@@ -25,9 +26,12 @@ type Verifier struct {
 	fset      *token.FileSet
 	pureAx    map[string]func() *Term // UF name -> axiom builder
 	pureAxC   map[string]*Term
+	linkC     map[string][]*Term
 	pseudoTP  map[string]*types.TypeParam
 	loadErrs  []string
 }
+
+var epochVarRe = regexp.MustCompile(`^H([1-9][0-9]*)!(.*)$`)
 
 const modPath = "github.com/DDP-Projekt/Kompilierer"
 
@@ -715,6 +719,18 @@ func (v *Verifier) axiomsFor(r *Run, terms []*Term, extra []*Term) []*Term {
 						base = b
 					}
 				}
+				for _, ax := range v.implLinks(base) {
+					dup := false
+					for _, o := range out {
+						if o == ax {
+							dup = true
+						}
+					}
+					if !dup {
+						out = append(out, ax)
+						added = append(added, ax)
+					}
+				}
 				if ax := v.pureAxiom(base); ax != nil && !ax.IsTrue() {
 					dup := false
 					for _, o := range out {
@@ -759,12 +775,33 @@ func (v *Verifier) axiomsFor(r *Run, terms []*Term, extra []*Term) []*Term {
 	// heap closure: every reference stored in the INITIAL heap refers to an object that already exists
 	// (it is not above the initial allocation watermark)
 	for _, n := range sortedKeys(c.vars) {
-		if !strings.HasPrefix(n, "H0!") || !refComps[strings.TrimPrefix(n, "H0!")] {
+		var top0 *Term
+		if strings.HasPrefix(n, "H0!") {
+			if !refComps[strings.TrimPrefix(n, "H0!")] {
+				continue
+			}
+			top0 = Var("alloc0", SInt)
+		} else if strings.HasPrefix(n, "Hv!") {
+			hvTopMu.Lock()
+			inf, ok := hvTop[n]
+			hvTopMu.Unlock()
+			if !ok || !refComps[inf.comp] {
+				continue
+			}
+			top0 = inf.top
+		} else if m := epochVarRe.FindStringSubmatch(n); m != nil {
+			hvTopMu.Lock()
+			t, ok := epochTop[atoi(m[1])]
+			hvTopMu.Unlock()
+			if !ok || !refComps[m[2]] {
+				continue
+			}
+			top0 = t
+		} else {
 			continue
 		}
 		srt := c.vars[n]
 		hv := Var(n, srt)
-		top0 := Var("alloc0", SInt)
 		if srt == ArrSort(SInt, SInt) {
 			r := Bound("ax.r", SInt)
 			out = append(out, Forall([]*Term{r}, And(Ge(App("select", SInt, hv, r), IntLit(0)), Le(App("select", SInt, hv, r), top0))))
@@ -1130,4 +1167,131 @@ func (v *Verifier) VerifyLemma(l *Lemma) (o *Oblig, err string) {
 		}
 	}
 	return o, ""
+}
+
+// implLinks: a pure INTERFACE method "(I).M" is an uninterpreted function of the boxed receiver. For every type T of
+// the module that implements I and whose own method M is under a contract marked pure, the link
+//     forall r, args :: (I).M(box_T(r), args) == (T).M(r, args)
+// holds by Go's dynamic dispatch; (T).M's axiom is its contract, proved against its body.
+func (v *Verifier) implLinks(base string) []*Term {
+	if v.linkC == nil {
+		v.linkC = map[string][]*Term{}
+	}
+	if ls, ok := v.linkC[base]; ok {
+		return ls
+	}
+	v.linkC[base] = nil
+	var ispec *FuncSpec
+	for _, cs := range v.contracts {
+		for _, fs := range cs.Funcs {
+			if fs.Has("pure") && v.pureUFName(fs) == base {
+				ispec = fs
+			}
+		}
+	}
+	if ispec == nil || !strings.HasPrefix(ispec.Target, "(") || strings.HasPrefix(ispec.Target, "(*") {
+		return nil
+	}
+	i := strings.Index(ispec.Target, ").")
+	if i < 0 {
+		return nil
+	}
+	iname, mname := ispec.Target[1:i], ispec.Target[i+2:]
+	ip := v.pkgByPath[ispec.Pkg.PkgPath]
+	if ip == nil {
+		return nil
+	}
+	io := ip.Types.Scope().Lookup(iname)
+	if io == nil {
+		return nil
+	}
+	iface, ok := io.Type().Underlying().(*types.Interface)
+	if !ok {
+		return nil
+	}
+	var out []*Term
+	var paths []string
+	for pth := range v.pkgByPath {
+		paths = append(paths, pth)
+	}
+	sort.Strings(paths)
+	for _, pth := range paths {
+		p := v.pkgByPath[pth]
+		cs := v.contracts[pth]
+		if cs == nil || !strings.HasPrefix(pth, modPath) {
+			continue
+		}
+		for _, name := range p.Types.Scope().Names() {
+			tn, ok := p.Types.Scope().Lookup(name).(*types.TypeName)
+			if !ok || tn.IsAlias() {
+				continue
+			}
+			named, ok := tn.Type().(*types.Named)
+			if !ok || named.TypeParams().Len() > 0 {
+				continue
+			}
+			if _, isI := named.Underlying().(*types.Interface); isI {
+				continue
+			}
+			for _, recv := range []types.Type{named, types.NewPointer(named)} {
+				if !types.Implements(recv, iface) {
+					continue
+				}
+				if _, isPtr := recv.(*types.Pointer); !isPtr {
+					// value receiver: *T implements as well; handled by the pointer case only if T does not
+				}
+				sel := types.NewMethodSet(recv).Lookup(tn.Pkg(), mname)
+				if sel == nil {
+					continue
+				}
+				mfn := v.prog.MethodValue(sel)
+				if mfn == nil || mfn.Synthetic != "" {
+					continue
+				}
+				cspec, ccs := v.specFor(mfn)
+				if cspec == nil || !cspec.Has("pure") {
+					continue
+				}
+				// bound variables: receiver leaves + parameter leaves
+				var bs []*Term
+				rv := &Val{T: recv}
+				for _, l := range layoutTE(recv, nil) {
+					b := Bound(freshName("lk.r"+leafSuffix(l.Path)), l.Sort)
+					bs = append(bs, b)
+					rv.L = append(rv.L, b)
+				}
+				sig := mfn.Signature
+				cargs := []*Val{rv}
+				iargs := []*Val{{T: io.Type(), L: []*Term{boxAny(rv, nil)}}}
+				for k := 0; k < sig.Params().Len(); k++ {
+					pt := sig.Params().At(k).Type()
+					a := &Val{T: pt}
+					for _, l := range layoutTE(pt, nil) {
+						b := Bound(freshName("lk.p"+leafSuffix(l.Path)), l.Sort)
+						bs = append(bs, b)
+						a.L = append(a.L, b)
+					}
+					cargs = append(cargs, a)
+					iargs = append(iargs, a)
+				}
+				var rt types.Type = sig.Results()
+				if sig.Results().Len() == 1 {
+					rt = sig.Results().At(0).Type()
+				}
+				cres := v.pureResult(cspec, ccs, mfn, sig, cargs, nil, rt)
+				ires := v.pureResult(ispec, ispec.Pkg, nil, sig, iargs, nil, rt)
+				var eqs []*Term
+				for k := range cres.L {
+					if k < len(ires.L) {
+						eqs = append(eqs, Eq(ires.L[k], cres.L[k]))
+					}
+				}
+				if len(eqs) > 0 {
+					out = append(out, Forall(bs, And(eqs...)))
+				}
+			}
+		}
+	}
+	v.linkC[base] = out
+	return out
 }
